@@ -228,7 +228,7 @@ def utm_south_cases(draw):
 def check_definition_wide(case):
     cv = repo.mod("geodepy.convert")
     T.grid_range_or_discard(case["east"], case["north"])
-    lat, lon, _, _ = cv.grid2geo(case["zone"], case["east"], case["north"])
+    lat, lon = T.oracle_inverse(dict(case, prj="utm", ell="grs80"), hemi="south")      # (domain decided without the library)
     cm = -177.0 + (case["zone"] - 1) * 6.0
     if not (-79.99 <= lat <= -0.001) or abs(lon) > 179.99 or abs(lon - cm) > 30.0:
         raise Discard()
